@@ -60,6 +60,9 @@ class _OrderedScan:
 def install_scandir_order(order):
     """Directory listing order is unspecified by the OS: present real listings in the given name order (the order the symbolic run
     used), so that an order-dependent counterexample can reproduce on the real tree."""
+    # wcmatch computes SUPPORT_DIR_FD from `os.scandir in os.supports_fd` at import time: import it before the wrapper goes in,
+    # and register the wrapper as fd-capable as well, so that dir_fd-based runs are not silently turned into cwd-based ones
+    import wcmatch.glob, wcmatch.wcmatch, wcmatch.pathlib  # noqa: F401,E401
     rank = {n: k for k, n in enumerate(order)}
     real = os.scandir
 
@@ -68,6 +71,8 @@ def install_scandir_order(order):
             ents = list(it)
         ents.sort(key=lambda e: rank.get(os.fsdecode(e.name), len(rank)))
         return _OrderedScan(ents)
+    if real in os.supports_fd:
+        os.supports_fd.add(scandir)
     os.scandir = scandir
     return real
 
